@@ -356,7 +356,31 @@ func (e *c02Env) readStored(dbname string, ignoreTime bool) c02Stored {
 	return st
 }
 
-func (e *c02Env) flushCompare(t *rapid.T, data []byte, ignoreTime bool) {
+// twinUsable decodes the twin payload with both decoders and applies the same
+// structural oracle to it; it is buffered next to the main payload only when
+// both decoders accept it and the handler would let it through.
+func (e *c02Env) twinUsable(t *rapid.T, twin []byte) (usable, generated bool) {
+	if twin == nil {
+		return false, false
+	}
+	var br c02Bracket
+	br.loT = time.Now().UnixMicro() - 1
+	resT, errT, pT := c02Decode(e.decT, twin)
+	br.hiT = time.Now().UnixMicro() + 1
+	br.loG = br.hiT - 2
+	resG, errG, pG := c02Decode(e.decG, twin)
+	br.hiG = time.Now().UnixMicro() + 1
+	if pT != "" || pG != "" || errT != nil || errG != nil {
+		return false, false
+	}
+	ut, ug := e.units(resT), e.units(resG)
+	if d := c02CmpUnits(ut, ug, br, &generated); d != "" {
+		t.Fatalf("VERIF-FAIL class=C02/decode-divergence payload=%s: %s", hex.EncodeToString(twin), d)
+	}
+	return c02Accepted(ut) && c02Accepted(ug) && c02Flushable(ut) && c02Flushable(ug), generated
+}
+
+func (e *c02Env) flushCompare(t *rapid.T, data []byte, ignoreTime bool, twin []byte, twinFirst bool) {
 	n := e.seq.Add(1)
 	dbT, dbG := fmt.Sprintf("t%d", n), fmt.Sprintf("g%d", n)
 	defer os.RemoveAll(filepath.Join(e.root, dbT))
@@ -367,8 +391,31 @@ func (e *c02Env) flushCompare(t *rapid.T, data []byte, ignoreTime bool) {
 		t.Fatalf("HARNESS: second decode of an accepted payload failed: %v / %v", errT, errG)
 	}
 	ctx := context.Background()
+	// optionally buffer a same-schema twin before/after the payload so that the
+	// flush has to MERGE two batches with different null patterns on each side
+	writeTwin := func() {
+		if twin == nil {
+			return
+		}
+		twT, e1, _ := c02Decode(e.decT, twin)
+		twG, e2, _ := c02Decode(e.decG, twin)
+		if e1 != nil || e2 != nil {
+			t.Fatalf("HARNESS: second decode of an accepted twin failed: %v / %v", e1, e2)
+		}
+		w1, w2 := e.buf.Write(ctx, dbT, twT), e.buf.Write(ctx, dbG, twG)
+		if (w1 == nil) != (w2 == nil) {
+			t.Fatalf("VERIF-FAIL class=C02/write-accept-mismatch payload=%s typed write err=%v generic write err=%v", hex.EncodeToString(twin), w1, w2)
+		}
+		verifkit.Class("flush-compared-with-twin")
+	}
+	if twinFirst {
+		writeTwin()
+	}
 	wT := e.buf.Write(ctx, dbT, resT)
 	wG := e.buf.Write(ctx, dbG, resG)
+	if !twinFirst {
+		writeTwin()
+	}
 	fErr := e.buf.FlushAll(ctx)
 	if (wT == nil) != (wG == nil) {
 		t.Fatalf("VERIF-FAIL class=C02/write-accept-mismatch payload=%s typed write err=%v generic write err=%v", hex.EncodeToString(data), wT, wG)
@@ -536,7 +583,18 @@ func (e *c02Env) check(t *rapid.T, data []byte, m *c02Meta, doFlush bool) {
 		verifkit.Class("accepted-typed-hit")
 	}
 	if doFlush && c02Flushable(ut) && c02Flushable(ug) {
-		e.flushCompare(t, data, generated)
+		var twin []byte
+		twinFirst := false
+		if rapid.IntRange(0, 2).Draw(t, "twin") != 2 {
+			twin = c02GenTwin(t, m)
+			if ok, gen := e.twinUsable(t, twin); !ok {
+				twin = nil
+			} else if gen {
+				generated = true // the twin's timestamps are server-generated too
+			}
+			twinFirst = rapid.Bool().Draw(t, "twinfirst")
+		}
+		e.flushCompare(t, data, generated, twin, twinFirst)
 	}
 }
 
